@@ -46,6 +46,9 @@ def main():
         if fid is None or fid not in by:
             print("UNCLASSIFIED", json.dumps(sig)[:300])
             continue
+        if prop == "C13":
+            # identified by case, operation class of the fault site, mode and symptom (not by errno / occurrence)
+            sig = {k: sig[k] for k in ("case", "site", "mode", "what")}
         if sig not in by[fid].setdefault("instances", []):
             by[fid]["instances"].append(sig)
             n += 1
